@@ -398,13 +398,16 @@ PROPS["C06"]["explanation"] += (" c06core: every observation equals the Core mod
     "nothing failed the consumer received exactly as many deliveries as were sent (and the messages that were sent, in order).")
 PROPS["C06"]["trusted_base"] = PROPS["C06"]["trusted_base"] + CORE_TRUSTED
 PROPS["C10"]["check_mods"].append("CoreMix")
+PROPS["C10"]["check_mods"].append("C10core")
 PROPS["C10"]["drivers"].append({"name": "c10core", "n_quick": 160, "n_thorough": 8000, "timeout": 3000})
 PROPS["C10"]["rule"] += (" At the level of the I/O thread (c10core, CoreProbe): channel_max from {65535, 65534, 4, 2}; "
     "explicit ids from {0, 1, 2, 255, 256, 32767, 32768, 65534, 65535, max-1, max, max+1} and automatic ones are "
     "opened through the real allocation request / event / reply path, used like any other id (requests into the "
     "mailbox, the channel's wake-up token, replies from the server), closed by the server and opened again.")
 PROPS["C10"]["explanation"] += (" c10core: every observation equals the Core model's; nothing panics (an id is also a "
-    "poll token: the dispatch must accept every id up to 65535).")
+    "poll token: the dispatch must accept every id up to 65535: C10_token_dispatch / C10_tokens_injective over the constants "
+    "of the compiled crate; oracle taken_ok: a request accepted by a channel's mailbox is handed to the out-buffer by "
+    "that channel's next wake-up, whatever the id).")
 PROPS["C10"]["trusted_base"] = PROPS["C10"]["trusted_base"] + CORE_TRUSTED
 for _p in ("C11", "C09"):
     PROPS[_p]["check_mods"].append("C11l2")
@@ -580,9 +583,19 @@ PROPS["C15"]["explanation"] += (" c15l2: exactly min(tries, negotiated channel_m
     "refused with ExhaustedChannelIds, id max is available and id max + 1 is refused with UnavailableChannelId - "
     "against make_tune_ok of the model and, independently, against the documented rule (0 = no limit, else the smaller).")
 PROPS["C15"]["trusted_base"] = PROPS["C15"]["trusted_base"] + L2_TRUSTED
+# 'no body frame it sends exceeds frame_max': the publish splitter is driven under C15 too (seed C15d: the
+# splitter and the place the handle learns the negotiated limit disagreed by the 8 bytes of framing)
+PROPS["C15"]["check_mods"].append("C02")
+PROPS["C15"]["drivers"].append({"name": "c02", "n_quick": 120, "n_thorough": 3000, "timeout": 3000})
+PROPS["C15"]["rule"] += (" 'Then obeyed', frame_max (c02, see C02): real publishes over real connections whose frame_max "
+    "was negotiated from either side's setting, body lengths k*limit-1, k*limit, k*limit+1 and random; every body "
+    "frame on the wire is within the announced frame_max including its 8 bytes of framing.")
+PROPS["C15"]["explanation"] += (" c02: the frames the broker decodes equal the splitter model's for the NEGOTIATED "
+    "frame_max and none exceeds it (C02_frame_size).")
 
 # C09's "the id can be opened again": the same boundary-id / server-close / re-open mix as C10
 PROPS["C09"]["check_mods"].append("CoreMix")
+PROPS["C09"]["check_mods"].append("C10core")
 PROPS["C09"]["drivers"].append({"name": "c10core", "n_quick": 160, "n_thorough": 8000, "timeout": 3000})
 PROPS["C09"]["rule"] += (" Re-use after a server close (c10core, see C10): small and maximal channel_max, channels "
     "closed by the server, re-opened explicitly and automatically until the ids run out.")
@@ -596,6 +609,36 @@ PROPS["C02"]["rule"] += (" Under fragmented writes (c01, see C01): publishes wit
 PROPS["C02"]["explanation"] += (" c01: every channel's publish, header and body frames are on the wire exactly as "
     "issued, once, in order, whole, also when the buffer is sealed by the close while half written.")
 PROPS["C02"]["trusted_base"] = PROPS["C02"]["trusted_base"] + L2_TRUSTED
+
+# the whole system around a synchronous call (Model/Sys.v): every schedule of callers, I/O thread and server
+for _p in ("C04", "C05"):
+    PROPS[_p]["check_mods"].append("C04sys")
+    PROPS[_p]["drivers"].append({"name": "c04sys", "n_quick": 120, "n_thorough": 6000, "timeout": 3000})
+    PROPS[_p]["rule"] += (" The whole system (c04sys): one real connection, 1-5 caller threads each running a random "
+        "program of 1-14 synchronous calls (queue_declare / queue_purge / queue_delete, each answered with a count) "
+        "and nowait calls (publish / purge_nowait / delete_nowait) on its own channel, mailbox bound 1 / 2 / 16, the "
+        "transport sometimes taking the client's bytes in pieces of 1-40 with would-blocks; the broker answers one "
+        "channel's requests in order and the channels in any relative order - at once, in random batches, one reply "
+        "per read episode, or only once every running channel is waiting.")
+PROPS["C04"]["explanation"] += (" C04_system_own_reply / C04_system_reply_queue_never_full / "
+    "C04_system_waiting_progress (Model/Sys.v: every interleaving of callers, I/O thread and server), "
+    "C04_io_read_is_ARead / C04_io_drain_is_ADrain / C04_io_write_is_AWrite (the system's I/O actions are steps of the "
+    "Core model). c04sys: what every call of the real program returned equals what the system model returns under a "
+    "pseudo-random schedule of its own (by the theorem the schedule does not matter); oracle: nobody hung, close() = "
+    "Ok, the i-th synchronous call of channel n returned answer(n, r_i), the broker saw each channel's requests "
+    "exactly as issued.")
+PROPS["C05"]["explanation"] += (" c04sys (nobody hangs while the server answers): every call of every caller "
+    "returned whatever the order of the server's answers (C04_system_waiting_progress: no reachable state of the "
+    "system is a deadlock).")
+# a silent server while the connection is closing (seed C05d): the heartbeat scenarios of the c05 generator
+PROPS["C17"]["check_mods"].append("C05")
+PROPS["C17"]["drivers"].append({"name": "c05core", "n_quick": 160, "n_thorough": 2000, "timeout": 3000})
+PROPS["C17"]["rule"] += (" At the level of the I/O thread (c05core, see C05): in one case of twelve the fatal event is "
+    "the HEARTBEAT token after an absence of more than two intervals (real timers, 100 ms), also while the client's "
+    "own close is in flight or the buffer is sealed.")
+PROPS["C17"]["explanation"] += (" c05core: the expiry of the receive timer ends the connection with "
+    "MissedServerHeartbeats in every phase (oracle_heartbeats), as Model.Core.heartbeat_timers says.")
+PROPS["C17"]["trusted_base"] = PROPS["C17"]["trusted_base"] + CORE_TRUSTED
 
 # properties not claimed, with the reason (kept current)
 NOT_APPLICABLE = {}
